@@ -74,6 +74,10 @@ def run(ctx):
     # (ii) through real samples
     ss = S.generate(ctx, 10 if ctx.quick else 60, 4 if ctx.quick else 8, max_e=6, max_loops=4, routings_per_graph=1,
                     names=["bubble", "sunrise", "banana4", "banana5", "triangle", "double_triangle", "tadpole"], kinds=("uniform", "angles", "tiny_xi", "zero_xi"))
+    # no masses and every momentum exactly zero: V = 0 (the loop momenta collapse to 0, the weight is infinite) - the Gaussian vectors in the
+    # metadata are still the Box-Muller transform of their coordinates
+    ss += S.generate(ctx, 4 if ctx.quick else 16, 2, max_e=5, max_loops=3, routings_per_graph=1, names=["triangle", "sunrise", "bubble", "box"],
+                     kinds=("uniform",), scales=(0,), mass_mode="none")
     S.run(ss)
     SC.corr_qvec(ctx, ss)
     SC.generic_scalar_guard(ctx, ss[:: 3], k=8)
